@@ -23,6 +23,14 @@ impl SourceFileMap {
         self.file_line_ranges.push(SourceLineRanges::default());
     }
 
+    /// Records the ranges of a file line that has a BASIC line number but whose
+    /// content was *not* stored in the program (e.g. because it failed to tokenize
+    /// or contained no statements), so the BASIC line keeps mapping to whichever
+    /// file line actually defined it.
+    pub(crate) fn add_unstored(&mut self, ranges: SourceLineRanges) {
+        self.file_line_ranges.push(ranges);
+    }
+
     pub(crate) fn add(&mut self, basic_line: u64, ranges: SourceLineRanges) {
         let file_line_number = self.file_line_ranges.len();
         self.basic_lines_to_file_lines
